@@ -3,6 +3,7 @@ package main
 import (
 	"fmt"
 	"math/rand"
+	"os"
 	"strings"
 )
 
@@ -126,10 +127,110 @@ func spaced(r *rand.Rand, text string) string {
 	return sb.String()
 }
 
+// c02XInfo is xinfoStr with the per-rule "trim trailing whitespace" flag computed by an own nullable
+// analysis of the compiled rules (NOT by the repository's Grammar.HasTrailingNulls): a rule needs
+// trimming iff fixWhitespace is on and its last non-marker right-hand side symbol is nullable.
+func c02XInfo(gp *GenParser) string {
+	g := gp.G
+	p := g.Parser
+	nullable := make([]bool, len(g.Syms))
+	for ch := true; ch; {
+		ch = false
+		for _, r := range p.Rules {
+			if int(r.LHS) >= len(nullable) || nullable[r.LHS] {
+				continue
+			}
+			all := true
+			for _, s := range r.RHS {
+				if s.IsStateMarker() {
+					continue
+				}
+				if int(s) >= len(nullable) || !nullable[s] {
+					all = false
+					break
+				}
+			}
+			if all {
+				nullable[r.LHS] = true
+				ch = true
+			}
+		}
+	}
+	var rules []string
+	for _, r := range p.Rules {
+		ty := 0
+		if r.Type >= 0 {
+			ty = r.Type + 1
+		}
+		fw := false
+		if g.Options.FixWhitespace && !g.Options.TokenStream {
+			for i := len(r.RHS) - 1; i >= 0; i-- {
+				if s := r.RHS[i]; !s.IsStateMarker() {
+					fw = int(s) < len(nullable) && nullable[s]
+					break
+				}
+			}
+		}
+		reps := "-"
+		if r.Action != 0 && r.Action < len(p.Actions) {
+			var rs []string
+			for _, rep := range p.Actions[r.Action].Report {
+				rs = append(rs, fmt.Sprintf("%d:%d:%d", rep.Type+1, rep.Start, rep.End))
+			}
+			if len(rs) > 0 {
+				reps = strings.Join(rs, ",")
+			}
+		}
+		rules = append(rules, fmt.Sprintf("%d/%s/%s", ty, b2s(fw), reps))
+	}
+	rs := "_"
+	if len(rules) > 0 {
+		rs = strings.Join(rules, ";")
+	}
+	return fmt.Sprintf("%s %s %s %d %s %s", rs, b2s(g.Options.FixWhitespace), "false", -1, "-", b2s(g.Options.Cancellable))
+}
+
+// c02Names translates the runner's `typeId:off:end … ok` into `Name:off:end …` (names from the
+// generated listener's node type table) and the final status.
+func c02Names(gp *GenParser, out string) (evs string, status string) {
+	fs := strings.Fields(out)
+	if len(fs) == 0 {
+		return "", out
+	}
+	types := gp.G.Parser.Types.RangeTypes
+	var parts []string
+	for _, f := range fs[:len(fs)-1] {
+		var id, o, e int
+		if _, err := fmt.Sscanf(f, "%d:%d:%d", &id, &o, &e); err == nil && id >= 1 && id <= len(types) {
+			parts = append(parts, fmt.Sprintf("%s:%d:%d", types[id-1].Name, o, e))
+		} else {
+			parts = append(parts, "?"+f)
+		}
+	}
+	return strings.Join(parts, " "), fs[len(fs)-1]
+}
+
+// c02Spaced: blanks in front of every other token on average and mostly a trailing blank.
+func c02Spaced(r *rand.Rand, text string) string {
+	var sb strings.Builder
+	for i := 0; i < len(text); i++ {
+		if r.Intn(2) == 0 {
+			sb.WriteString(strings.Repeat(" ", 1+r.Intn(2)))
+		}
+		sb.WriteByte(text[i])
+	}
+	if r.Intn(3) != 0 {
+		sb.WriteString(" ")
+	}
+	return sb.String()
+}
+
+const c02Rule = "conflict-free random CFGs turned into an annotated SOURCE grammar (c02src.go): rule-level arrows on most rules, groups `( … -> T)` nested up to depth 2 and optionally `?`, arrows around parts that can be syntactically absent, nested choices with arrows on alternatives and on the choice, lists `x+ x* (x -> E)+ ((x -> E) separator 'c')* (x y -> E)+` with an arrow on the element and/or `(list -> L)` on the whole list, two or more lists over the SAME element with the same quantifier/separator that differ only in their arrow, node names reused at two places, state markers (mostly at the very end of a rule, behind nullable nonterminals/star lists), nullable nonterminals inside and at the ends of annotated parts, 1-3 inputs incl. `no-eoi` ones (a quarter of the grammars have ONLY a no-eoi input, others have node names reachable only from a no-eoi input); whitespace between tokens and fixWhitespace on/off; the real toolchain compiles the rendered .tm and generates the parsers. For all strings up to length 3, random sentences of the source grammar and mutations: (A) generated parser's listener stream vs the Lean runtime model and vs the stack-free specification Events.eventsOf on the compiled rules (Lean answers SPEC-MISMATCH when they differ; the per-rule trim flag handed to Lean comes from an own nullable analysis, not from Grammar.HasTrailingNulls); (B) SOURCE-LEVEL ORACLE, independent of everything the compiler produced: brute-force derivation counting of the token string against the source grammar (skip if not a sentence or ambiguous; no-eoi inputs: the unique prefix that is a sentence), then the expected events by this rule: every arrow whose part is present yields one node (an absent `?` part yields none; an arrow AROUND an absent optional yields an empty node); range start = offset of the first token of the part; range end = end of its last token, except that a part whose derivation ENDS in an empty nonterminal or empty star list extends to the offset of the following token when fixWhitespace is off (never with fixWhitespace); a part deriving the empty string sits at the following token (start = end = its offset, the text length at end of input); delivery order: nodes of nested nonterminals and list iterations in text order as they complete, then the inline arrows of the enclosing rule (or list iteration) inner before outer and left to right, the rule's own arrow last. The generated parser's stream (type NAMES) must equal the oracle's events on every such sentence. non-trivial = accepted input whose stream contains a nested (non rule-level) node; distinct by (grammar, input)"
+
 func c02(c *Ctx) {
-	c.Rule = "conflict-free random CFGs decorated with nested arrow annotations: `-> R<i>` on most rules plus parenthesised sub-ranges `( … -> T<k>)`, nested up to depth 2 and optionally `?` (expanded by the compiler), with nullable nonterminals inside and at the ends of annotated parts; whitespace between tokens and fixWhitespace on/off; the real toolchain generates the parsers; for sentences (random derivations + all strings up to length 4): the generated parser's listener stream vs (1) the Lean runtime model and (2) the stack-free specification Events.eventsOf evaluated on the derivation tree (Lean answers SPEC-MISMATCH when model and specification differ); non-trivial = accepted input whose stream contains a nested (T) node; distinct by (grammar, input)"
-	nG := c.N(20, 300)
-	batchSize := 20
+	c.Rule = c02Rule
+	nG := c.N(80, 600)
+	batchSize := 40
 	cfg := GramCfg{MaxNT: 4, MaxNN: 4, MaxRules: 3, MaxRHS: 4, MultiInput: true, PEmpty: 0.25}
 	for done := 0; done < nG; done += batchSize {
 		b, err := NewBatch()
@@ -138,25 +239,56 @@ func c02(c *Ctx) {
 			return
 		}
 		type item struct {
-			g  *Gram
+			sg *SGram
 			gp *GenParser
 		}
 		var items []item
 		for k := 0; k < batchSize && done+k < nG; k++ {
-			g := genConflictFree(c, cfg, true)
-			if g == nil {
+			template := k%8 == 3
+			var g *Gram
+			if !template {
+				if g = genConflictFree(c, cfg, true); g == nil {
+					continue
+				}
+			}
+			o := TMOpts{Optimize: c.Rng.Intn(3) == 0, Space: c.Rng.Intn(3) != 0}
+			if template {
+				o.Space = true
+			}
+			o.FixWhitespace = o.Space && c.Rng.Intn(5) < 3
+			name := fmt.Sprintf("e%d", done+k)
+			var sg *SGram
+			var gp *GenParser
+			var feats map[string]bool
+			for tries := 0; tries < 8; tries++ {
+				if template {
+					sg, feats = tmplSrc(c.Rng)
+				} else {
+					sg, feats = decorateSrc(c.Rng, g, o.FixWhitespace)
+				}
+				gp = compileTM(name, sg.TM(name, o), o)
+				if gp.Err == nil {
+					break
+				}
+				c.Count("decoration rejected by the compiler: " + firstWords(errSummary(gp.Err), 1))
+			}
+			if gp.Err != nil {
 				continue
 			}
-			o := TMOpts{Optimize: c.Rng.Intn(3) == 0, Space: c.Rng.Intn(2) == 0}
-			o.FixWhitespace = o.Space && c.Rng.Intn(2) == 0
-			name := fmt.Sprintf("e%d", done+k)
-			gp := compileTM(name, tmArrows(c.Rng, g, name, o), o)
-			if gp.Err != nil {
-				c.Count("rejected: " + firstWords(errSummary(gp.Err), 6))
-				continue
+			for f := range feats {
+				c.Count("grammar with " + f)
+			}
+			if o.FixWhitespace {
+				c.Count("grammar with fixWhitespace")
+			}
+			if o.FixWhitespace && feats["marker behind a nullable tail"] {
+				c.Count("grammar with fixWhitespace and a marker behind a nullable tail")
+			}
+			if feats["template"] && os.Getenv("C02_DEBUG") == "2" {
+				fmt.Fprintf(os.Stderr, "NULLTAIL\n%s\n", gp.TM)
 			}
 			b.Add(gp)
-			items = append(items, item{g, gp})
+			items = append(items, item{sg, gp})
 		}
 		if len(items) == 0 {
 			b.Close()
@@ -174,10 +306,30 @@ func c02(c *Ctx) {
 		}
 		var metas []meta
 		for _, it := range items {
-			for idx, in := range it.g.Inputs {
-				for _, w := range sampleWords(c, it.g, in.Sym, 3, 10) {
-					text := wordText(it.g, w)
+			for idx, in := range it.sg.Inputs {
+				var ws [][]int
+				cnt := 0
+				it.sg.names.AllStrings(2, func(w []int) bool {
+					ws = append(ws, w)
+					cnt++
+					return cnt < 400
+				})
+				for i := 0; i < 24; i++ {
+					if s, ok := it.sg.RandSentence(c.Rng, in.Sym, 3+c.Rng.Intn(9)); ok {
+						ws = append(ws, s)
+						if i%3 == 0 {
+							ws = append(ws, it.sg.names.Mutate(c.Rng, s))
+						}
+					}
+				}
+				for _, w := range ws {
+					text := wordText(it.sg.names, w)
 					if it.gp.Opts.Space {
+						if it.gp.Opts.FixWhitespace && len(w) > 2 {
+							// a second, denser spacing of the same sentence
+							reqs = append(reqs, RunReq{Parser: it.gp.Name, Input: idx, Text: c02Spaced(c.Rng, text)})
+							metas = append(metas, meta{it, idx})
+						}
 						text = spaced(c.Rng, text)
 					}
 					reqs = append(reqs, RunReq{Parser: it.gp.Name, Input: idx, Text: text})
@@ -195,13 +347,11 @@ func c02(c *Ctx) {
 			toks, _ := tokenize(gp, text)
 			out := outs[i]
 			key := ""
-			if strings.HasSuffix(out, "ok") {
+			real, status := c02Names(gp, out)
+			if status == "ok" {
 				c.Count("accepted")
-				// nested node present?
-				types := gp.G.Parser.Types.RangeTypes
-				for _, f := range strings.Fields(out) {
-					var id int
-					if _, err := fmt.Sscanf(f, "%d:", &id); err == nil && id >= 1 && id <= len(types) && strings.HasPrefix(types[id-1].Name, "T") {
+				for _, f := range strings.Fields(real) {
+					if !strings.HasPrefix(f, "R") {
 						key = gp.TM + "\x00" + text
 					}
 				}
@@ -209,9 +359,35 @@ func c02(c *Ctx) {
 				c.Count("rejected input")
 			}
 			c.Debugf("input %d %q of %s", m.input, text, gp.TM)
-			c.Case(fmt.Sprintf("events %s %s %s %d %s %d", tablesStr(t, nt), b2s(t.Optimized != nil), xinfoStr(gp), m.input, toks, len(text)), out, key)
+			c.Case(fmt.Sprintf("events %s %s %s %d %s %d", tablesStr(t, nt), b2s(t.Optimized != nil), c02XInfo(gp), m.input, toks, len(text)), out, key)
 			if out == "crash" || strings.HasSuffix(out, "panic") {
 				c.Violate("parser panicked: "+out, fmt.Sprintf("%q with %s", text, gp.TM))
+				continue
+			}
+			// (B) the source-level oracle
+			in := m.it.sg.Inputs[m.input]
+			stoks := srcTokens(text)
+			or := newSrcOracle(m.it.sg, stoks, len(text), gp.Opts.FixWhitespace)
+			exp, consumed, verdict := or.Expect(in)
+			c.Count("oracle: " + verdict)
+			if verdict != "unique" {
+				if verdict == "ambiguous" && os.Getenv("C02_DEBUG") != "" {
+					fmt.Fprintf(os.Stderr, "AMBIGUOUS %q input %d status %s\n%s\n", text, m.input, out, gp.TM)
+				}
+				continue
+			}
+			where := fmt.Sprintf("input %q through %s of grammar:\n%s", text, m.it.sg.names.SymName(in.Sym), gp.TM)
+			if status != "ok" {
+				if consumed == len(stoks) {
+					c.Violate(fmt.Sprintf("a sentence of the source grammar (unique derivation) is rejected by the generated parser: %s; expected events %s", out, showSrcEvents(exp)), where)
+				} else {
+					c.Count("oracle: prefix sentence, parser went on (skipped)")
+				}
+				continue
+			}
+			c.Count("oracle: compared")
+			if want := showSrcEvents(exp); want != real {
+				c.Violate(fmt.Sprintf("listener events differ from the source-level derivation: expected [%s] actual [%s]", want, real), where)
 			}
 		}
 	}
